@@ -66,6 +66,21 @@ Qed.
 Lemma root_mul a b c : c <> 0 -> a - b / c = 0 -> c * a = b.
 Proof. intros Hc H. assert (E : a = b / c) by lra. rewrite E. field. exact Hc. Qed.
 
+(* try_as_optimum / assign_optimum_periodic_poling: whatever the base poling, the installed poling is PeriodicPoling::new of the
+   optimum period: its signed period IS that period (sign kept), its k_eff is 2 pi / period *)
+Lemma assigned_poling_spec base_on opp : opp <> 0 ->
+  assigned_poling base_on opp = poling_of opp /\
+  0 < tao_period base_on opp /\
+  pp_signed_period_on (tao_positive base_on opp) (tao_period base_on opp) = opp /\
+  pp_k_eff (assigned_poling base_on opp) = 2 * PI / opp.
+Proof.
+  intros Hne. unfold assigned_poling, tao_period, tao_positive, tno_period, tno_positive, poling_of, pp_new_period, pp_new_positive.
+  replace (0 * 1) with 0 by ring. rewrite pp_k_eff_eq. unfold pp_signed_period_on. rewrite sign_mul_eq.
+  destruct (Rgt_dec opp 0) as [H|H]; unfold sign_val.
+  - repeat split; try reflexivity; try lra. f_equal. ring.
+  - repeat split; try reflexivity; try lra. f_equal. ring.
+Qed.
+
 Section AutoPolingProofs.
   Variable dkz : poling -> R.
   Variable o : @ops R.
